@@ -400,13 +400,38 @@ def _has_call(node, names):
     return False
 
 
+def _unconditional_copy(fn):
+    """a deepcopy call that is reached whatever the field's environment mapping is: not inside (the body or the else-branch of) an
+    `if` whose test looks at `env` / the environment"""
+    def mentions_env(test):
+        return any((isinstance(n, ast.Attribute) and "env" in n.attr) or (isinstance(n, ast.Name) and "env" in n.id) for n in ast.walk(test))
+
+    def walk(stmts, tainted):
+        for st in stmts:
+            if isinstance(st, ast.If):
+                t = tainted or mentions_env(st.test)
+                if walk(st.body, t) or walk(st.orelse, t):
+                    return True
+            elif isinstance(st, (ast.For, ast.While, ast.With, ast.Try)):
+                for part in (getattr(st, "body", []), getattr(st, "orelse", []), getattr(st, "finalbody", [])):
+                    if walk(part, tainted):
+                        return True
+                for h in getattr(st, "handlers", []):
+                    if walk(h.body, tainted):
+                        return True
+            elif not tainted and _has_call(st, ("deepcopy",)):
+                return True
+        return False
+    return walk(fn.body, False)
+
+
 def default_disciplines(repo):
     """How each `__setdefault__` hands a mutable default to a new configuration, read off the source:
     alias (the default object itself), shallow (list()/dict() of it), proxy (a validating proxy built from it: new top level,
     items through the item field), deep (copy.deepcopy)."""
     core_mod = _parse(repo, "core.py")
     fld = _method(_class(core_mod, "Field"), "__setdefault__")
-    out = {"field": "deep" if _has_call(fld, ("deepcopy",)) else "alias"}
+    out = {"field": "deep" if _unconditional_copy(fld) else "alias"}
     for modname, cls, proxy, plain, tag in (("fields/list_field.py", "ListField", "ListProxy", "list", "list"),
                                             ("fields/dict_field.py", "DictField", "DictProxy", "dict", "dict")):
         m = _method(_class(_parse(repo, modname), cls), "__setdefault__")
